@@ -1,3 +1,544 @@
-"""placeholder replaced below"""
-def run_scope(chk, rid, scope):
-    pass
+"""T-REC — every cycle of the instance-level call graph matches a bounded-recursion idiom.
+
+Recognisers (enumerated from the tree, DESIGN.md §3):
+  R-a  depth parameter threaded through the cycle, entry guard against a constant, +c on some edge of every cycle
+  R-b  depth field of self: guard against a constant, +/-1 step dominating the in-cycle call, no other writers
+  R-c  bool flag parameter: the in-cycle call sits under a test of the flag and passes the opposite literal
+  R-d  const-generic instance: the self call passes a different constant under an equality test on the parameter
+  R-f  dyn forwarders: every in-cycle edge is a virtual (trait-object) call and every function in the cycle is loop-free
+  R-g  memoised evaluation over strictly prior indices (IFT EntryIntersectionCache), with its three side conditions
+"""
+import itertools
+import re
+
+from ..facts import Facts
+from ..callgraph import CallGraph
+from ..mir import op_place, op_const
+from ..recur import _cmp_guards, depth_param_guard, INT_TYS
+from ..sym import expr_of, strip_casts, is_param_plus_const, show, rvalue_expr
+from ..guards import branch_guards, adt_aggregates
+
+SCOPES = {
+    "read": ("read_fonts::", "font_types::", "<read_fonts::", "<font_types::"),
+    "client": ("skrifa::", "incremental_font_transfer::", "shared_brotli_patch_decoder::", "read_fonts::", "font_types::"),
+    "ift": ("incremental_font_transfer::", "shared_brotli_patch_decoder::"),
+    "skrifa": ("skrifa::",),
+}
+LIMIT_MAX = 1024
+
+_cache = {}
+
+
+def graph_for(cfg):
+    if cfg not in _cache:
+        facts = Facts(cfg)
+        _cache[cfg] = (facts, CallGraph(facts))
+    return _cache[cfg]
+
+
+def in_scope(path, prefixes):
+    p = path.lstrip("<")
+    if any(p.startswith(x.lstrip("<")) for x in prefixes):
+        return True
+    # trait impls: `<Type as Trait>::m` — in scope when the self type or trait is
+    m = re.match(r"^<(.*?) as (.*)>::", path)
+    if m:
+        return any(m.group(1).lstrip("&").startswith(x.lstrip("<")) or m.group(2).startswith(x.lstrip("<")) for x in prefixes)
+    return False
+
+
+class Scc:
+    def __init__(self, facts, g, comps):
+        self.facts = facts
+        self.g = g
+        self.nodes = sorted(set(itertools.chain.from_iterable(comps)))
+        self.paths = sorted(set(g.nodes[i]["path"] for i in self.nodes))
+        self.bodies = {p: facts.body(p) for p in self.paths if facts.body(p) is not None}
+        nodeset = set(self.nodes)
+        # def-level edges with kinds and lines
+        self.edges = []  # (src_path, dst_path, kind, line)
+        for i in self.nodes:
+            for j, infos in g.succ[i].items():
+                if j in nodeset:
+                    for kind, line, c in infos:
+                        self.edges.append((g.nodes[i]["path"], g.nodes[j]["path"], kind, line))
+        self.edges = sorted(set(self.edges))
+
+    def call_terms(self, src, dst, line):
+        """call terminators in src's body at `line` that can be the edge to dst (by method name)"""
+        b = self.bodies.get(src)
+        if b is None:
+            return []
+        name = dst.split("::")[-1]
+        out = []
+        for bb, t in b.calls():
+            if t.line == line and (t.callee == dst or t.callee.split("::")[-1] == name):
+                out.append((bb, t))
+        return out
+
+    def in_cycle_calls(self, src):
+        out = []
+        for s, d, kind, line in self.edges:
+            if s == src:
+                for bb, t in self.call_terms(s, d, line):
+                    out.append((d, kind, bb, t))
+        return out
+
+    def def_succ(self):
+        m = {p: set() for p in self.paths}
+        for s, d, kind, line in self.edges:
+            m[s].add(d)
+        return m
+
+
+def acyclic(succ, removed=()):
+    nodes = [n for n in succ if n not in removed]
+    color = {}
+
+    def dfs(n):
+        color[n] = 1
+        for m in succ[n]:
+            if m in removed:
+                continue
+            if color.get(m) == 1:
+                return False
+            if m not in color and not dfs(m):
+                return False
+        color[n] = 2
+        return True
+    return all(dfs(n) for n in nodes if n not in color)
+
+
+# ---- R-a ---------------------------------------------------------------------------------------
+def try_ra(scc):
+    bodies = scc.bodies
+    if set(bodies) != set(scc.paths):
+        return None
+    cands = {}
+    for p, b in bodies.items():
+        cs = [i for i in range(1, b.argc + 1) if b.local_ty(i) in INT_TYS and not b.defs().get(i)]
+        if not cs:
+            return None
+        cands[p] = cs
+    paths = list(bodies)
+    total = 1
+    for p in paths:
+        total *= len(cands[p])
+    if total > 256:
+        return None
+    calls = {p: scc.in_cycle_calls(p) for p in paths}
+    if any(not calls[p] for p in paths):
+        return None
+    for assign in itertools.product(*[cands[p] for p in paths]):
+        A = dict(zip(paths, assign))
+        zero = {p: set() for p in paths}
+        ok = True
+        ninc = 0
+        for p in paths:
+            b = bodies[p]
+            for d, kind, bb, t in calls[p]:
+                ai = A[d] - 1
+                if ai >= len(t.args):
+                    ok = False
+                    break
+                e = strip_casts(expr_of(b, t.args[ai]))
+                if e == ("param", A[p]):
+                    zero[p].add(d)
+                elif is_param_plus_const(e, A[p]) is not None:
+                    ninc += 1
+                else:
+                    ok = False
+                    break
+            if not ok:
+                break
+        if not ok or not acyclic(zero):
+            continue
+        guards = {}
+        for p in paths:
+            b = bodies[p]
+            gs = [g for g in depth_param_guard(b, [bb for _, _, bb, _ in calls[p]], LIMIT_MAX) if g[0] == A[p]]
+            if gs:
+                guards[p] = gs[0]
+        if not guards:
+            continue
+        if not acyclic(scc.def_succ(), removed=set(guards)):
+            continue
+        desc = "; ".join(f"{p.split('::')[-1]}: `{bodies[p].local_name(A[p])}` < {guards[p][1]}" for p in guards)
+        return f"R-a depth parameter ({desc}); {ninc} incrementing call site(s), {sum(len(v) for v in zero.values())} pass-through"
+    return None
+
+
+# ---- R-b ---------------------------------------------------------------------------------------
+def _self_field(e):
+    """('proj', ('param',1), ('*', ('f', idx, name))) -> name"""
+    e = strip_casts(e)
+    if e[0] == "proj" and e[1] == ("param", 1) and len(e[2]) == 2 and e[2][0] == "*" and e[2][1][0] == "f":
+        return e[2][1][2]
+    return None
+
+
+def try_rb(scc, facts):
+    succ = scc.def_succ()
+    for p, b in scc.bodies.items():
+        if b.argc < 1 or not b.local_ty(1).startswith("&mut "):
+            continue
+        calls = scc.in_cycle_calls(p)
+        if not calls:
+            continue
+        call_bbs = [bb for _, _, bb, _ in calls]
+        if not acyclic(succ, removed={p}):
+            continue
+        for gbb, op, a, c, t_true, t_false in _cmp_guards(b):
+            fld = _self_field(a)
+            if fld is None or c[0] != "const" or c[2] is None:
+                continue
+            k = c[2]
+            if op in ("Eq", "Ge", "Gt"):
+                bail, cont = t_true, t_false
+            elif op in ("Ne", "Lt"):
+                bail, cont = t_false, t_true
+            else:
+                continue
+            if any(cb in b.reachable_from(bail) for cb in call_bbs):
+                continue
+            if not all(b.dominates(gbb, cb) for cb in call_bbs):
+                continue
+            # step statements on the same field
+            steps = []
+            for bb, j, st in b.stmts():
+                if st[0] == "A" and st[1][0] == 1 and len(st[1][1]) == 2 and st[1][1][0] == "*" and st[1][1][1][0] == "f" and st[1][1][1][2] == fld:
+                    e = strip_casts(rvalue_expr(b, st[2], 0))
+                    if e[0] == "bin" and e[1] in ("Add", "Sub") and _self_field(e[2]) == fld and strip_casts(e[3])[0] == "const":
+                        steps.append((bb, e[1], strip_casts(e[3])[2]))
+                    else:
+                        steps.append((bb, "other", None))
+            if any(s[1] == "other" for s in steps):
+                continue
+            pre = [s for s in steps if all(b.dominates(s[0], cb) for cb in call_bbs) and b.dominates(gbb, s[0])]
+            if not pre:
+                continue
+            direction = pre[0][1]
+            up = direction == "Add"
+            if up and not (op in ("Eq", "Ge", "Gt") and k <= LIMIT_MAX):
+                continue
+            if (not up) and not (op == "Eq" and k == 0 or op in ("Ne",) and k == 0):
+                continue
+            if op in ("Eq", "Ne") and pre[0][2] != 1:
+                continue
+            # no other function of the cycle writes the field
+            other_writers = []
+            for q, qb in scc.bodies.items():
+                if q == p:
+                    continue
+                for bb, j, st in qb.stmts():
+                    if st[0] == "A" and st[1][1] and any(isinstance(x, list) and x[0] == "f" and x[2] == fld for x in st[1][1]) \
+                            and qb.local_ty(st[1][0]) == b.local_ty(1):
+                        other_writers.append(q)
+            if other_writers:
+                continue
+            init = ""
+            if not up:
+                # count-down: every construction of the struct initialises the field with a small constant
+                sty = b.local_ty(1)[len("&mut "):]
+                adt_path = re.sub(r"<.*$", "", sty)
+                inits = []
+                for ob in facts.all_bodies(b.crate):
+                    for bb2, adt, variant, ops, st in adt_aggregates(ob, range(len(ob.blocks))):
+                        if adt == adt_path:
+                            rec = [r for r in facts.records("adt", b.crate) if r["path"] == adt_path]
+                            if not rec:
+                                return None
+                            names = [f[0] for f in rec[0]["variants"][0][1]]
+                            if fld not in names:
+                                return None
+                            e = strip_casts(expr_of(ob, ops[names.index(fld)]))
+                            inits.append(e[2] if e[0] == "const" else None)
+                if not inits or any(v is None or v > LIMIT_MAX for v in inits):
+                    continue
+                init = f", initialised to {sorted(set(inits))} at {len(inits)} construction site(s)"
+            return (f"R-b depth field `self.{fld}` in {p.split('::')[-1]}: guard `{op} {k}` at line {b.blocks[gbb].term.line}, "
+                    f"step {direction} {pre[0][2]} dominates {len(call_bbs)} in-cycle call(s){init}")
+    return None
+
+
+# ---- R-c ---------------------------------------------------------------------------------------
+def try_rc(scc):
+    if len(scc.paths) != 1:
+        return None
+    p = scc.paths[0]
+    b = scc.bodies.get(p)
+    if b is None:
+        return None
+    calls = scc.in_cycle_calls(p)
+    if not calls:
+        return None
+    flags = [i for i in range(1, b.argc + 1) if b.local_ty(i) == "bool" and not b.defs().get(i)]
+    for f in flags:
+        ok = True
+        for d, kind, bb, t in calls:
+            # dominated by a switch on the flag
+            val_needed = None
+            for g in branch_guards(b, bb):
+                c = g.cond
+                neg = False
+                while c[0] == "un" and c[1] == "Not":
+                    c = c[2]
+                    neg = not neg
+                if c == ("param", f):
+                    # taken_val is the switch value leading to the call: 0 => flag false (after negation handling)
+                    tv = g.taken_val
+                    truth = (tv != 0) if tv != "otherwise" else True
+                    if tv == "otherwise":
+                        truth = True
+                    if neg:
+                        truth = not truth
+                    val_needed = truth
+            if val_needed is None:
+                ok = False
+                break
+            e = strip_casts(expr_of(b, t.args[f - 1]))
+            if not (e[0] == "const" and e[2] is not None and bool(e[2]) != val_needed):
+                ok = False
+                break
+        if ok:
+            return f"R-c flag `{b.local_name(f)}`: {len(calls)} recursive call(s) sit under a test of the flag and pass the opposite literal"
+    return None
+
+
+# ---- R-d ---------------------------------------------------------------------------------------
+def try_rd(scc):
+    if len(scc.paths) != 1:
+        return None
+    p = scc.paths[0]
+    b = scc.bodies.get(p)
+    if b is None:
+        return None
+    consts = [g[0] for g in b.d["generics"] if g[1] == "const"]
+    if not consts:
+        return None
+    calls = [(bb, t) for bb, t in b.calls() if t.callee == p]
+    if not calls:
+        return None
+    for bb, t in calls:
+        m = re.match(r"^\[(\d+)_\w+\]$", t.d["cargs"])
+        if not m:
+            return None
+        k2 = int(m.group(1))
+        ok = False
+        for g in branch_guards(b, bb):
+            c = g.cond
+            if c[0] == "bin" and c[1] == "Eq" and g.taken_val != 0:
+                x, y = strip_casts(c[2]), strip_casts(c[3])
+                for u, v in ((x, y), (y, x)):
+                    if u[0] == "const" and u[2] is None and len(u) > 3 and u[3] in consts and v[0] == "const" and v[2] is not None and v[2] != k2:
+                        ok = True
+        if not ok:
+            return None
+    return f"R-d const instance: {len(calls)} self call(s) pass a constant generic argument different from the one tested on the path"
+
+
+# ---- R-f ---------------------------------------------------------------------------------------
+def has_loop(b):
+    # a back edge exists iff some block can reach itself
+    for i in range(len(b.blocks)):
+        if b.blocks[i].cleanup:
+            continue
+        for s in b.succ(i):
+            if i in b.reachable_from(s):
+                return True
+    return False
+
+
+def try_rf(scc):
+    if not scc.edges:
+        return None
+    if not all(kind in ("virtual", "virtual-default") or (kind == "call" and False) for _, _, kind, _ in scc.edges):
+        # allow static calls only from a default trait method back into the impl of the same object (self.fill -> fill_glyph)
+        dyn = [e for e in scc.edges if e[2] in ("virtual", "virtual-default")]
+        if not dyn:
+            return None
+        succ = {p: set() for p in scc.paths}
+        for s, d, kind, line in scc.edges:
+            if kind not in ("virtual", "virtual-default"):
+                succ[s].add(d)
+        if not acyclic(succ):
+            return None
+    for p, b in scc.bodies.items():
+        calls = scc.in_cycle_calls(p)
+        for d, kind, bb, t in calls:
+            # the in-cycle call must not sit in a loop of this function
+            if bb in set().union(*[b.reachable_from(s) for s in b.succ(bb)]) if b.succ(bb) else False:
+                return None
+    return (f"R-f dyn forwarders: every cycle passes a trait-object call and no in-cycle call sits in a loop "
+            f"({len(scc.paths)} defs, {len(scc.edges)} edges); depth = nesting of the trait objects, which the callers build "
+            f"one level per frame of an already bounded recursion")
+
+
+# ---- R-g (IFT) ---------------------------------------------------------------------------------
+EIC = "incremental_font_transfer::patchmap::EntryIntersectionCache::<'_>::"
+
+
+def try_rg(scc, facts):
+    if not all(p.startswith(EIC) for p in scc.paths):
+        return None
+    ib = scc.bodies.get(EIC + "intersects")
+    if ib is None:
+        return None
+    why = []
+    # (1) memo: cache.get hit returns before compute; cache.insert follows compute on every path to return
+    gets = [(bb, t) for bb, t in ib.calls() if t.callee.endswith("HashMap::<K, V, S, A>::get")]
+    comps = [(bb, t) for bb, t in ib.calls() if t.callee == EIC + "compute_intersection"]
+    ins = [(bb, t) for bb, t in ib.calls() if t.callee.endswith("HashMap::<K, V, S, A>::insert")]
+    if len(gets) != 1 or len(comps) != 1 or len(ins) != 1:
+        return None
+    if not ib.dominates(gets[0][0], comps[0][0]):
+        return None
+    # key of get and insert is the index parameter
+    if strip_casts(expr_of(ib, gets[0][1].args[1])) != ("ref", ("param", 2)) and show(ib, expr_of(ib, gets[0][1].args[1])) != "&index":
+        return None
+    if show(ib, strip_casts(expr_of(ib, ins[0][1].args[1]))) != "index":
+        return None
+    # every return reachable from compute passes insert
+    rets = [r for r in ib.return_blocks() if r in ib.reachable_from(comps[0][0])]
+    if not rets or not all(ib.dominates(ins[0][0], r) or _passes(ib, comps[0][0], r, ins[0][0]) for r in rets):
+        return None
+    why.append("intersects(): cache.get(&index) dominates compute_intersection and cache.insert(index, ..) lies on every path from it to return")
+    # (2) the only driver evaluates every index in increasing order before any `continue`
+    drv = facts.body("incremental_font_transfer::patchmap::add_intersecting_format2_patches")
+    if drv is None:
+        return None
+    dcalls = [(bb, t) for bb, t in drv.calls() if t.callee == EIC + "intersects"]
+    if len(dcalls) != 1:
+        return None
+    cb, ct = dcalls[0]
+    nexts = [(bb, t) for bb, t in drv.calls() if t.callee.endswith("Enumerate<I> as core::iter::traits::iterator::Iterator>::next") and cb in drv.reachable_from(bb)]
+    if len(nexts) != 1:
+        return None
+    hb = nexts[0][0]
+    # all back edges into the loop header come from blocks dominated by the intersects call
+    header_chain = {hb}
+    # include goto-only predecessors that form the header
+    preds = drv.preds()
+    back = [p for p in _preds_closure(drv, hb) if hb in drv.reachable_from(p) and p in drv.reachable_from(hb)]
+    loop_preds = [p for p in preds[hb] if p in drv.reachable_from(hb)]
+    if not loop_preds or not all(drv.dominates(cb, p) for p in loop_preds):
+        return None
+    # the index argument is the enumerate counter
+    s = show(drv, strip_casts(expr_of(drv, ct.args[1])))
+    if "next(" not in s or "as Some" not in s or not s.endswith(".0"):
+        return None
+    why.append("add_intersecting_format2_patches(): intersects(order, ..) is evaluated for every enumerate() index before any "
+               "`continue` (the call dominates every back edge of the loop)")
+    # the cache type is constructed only there
+    cons = []
+    for ob in facts.all_bodies("incremental_font_transfer"):
+        for bb2, adt, variant, ops, st in adt_aggregates(ob, range(len(ob.blocks))):
+            if adt == "incremental_font_transfer::patchmap::EntryIntersectionCache":
+                cons.append(ob.path)
+    if cons != [drv.path]:
+        return None
+    why.append("EntryIntersectionCache is constructed only in that function")
+    # (3) child indices refer to prior entries only
+    dec = facts.body("incremental_font_transfer::patchmap::decode_format2_entry")
+    if dec is None:
+        return None
+    stores = [(bb, st) for bb, j, st in dec.stmts() if st[0] == "A" and st[1][1] and st[1][1][-1][0] == "f" and st[1][1][-1][2] == "child_indices"]
+    if len(stores) != 1:
+        return None
+    sbb = stores[0][0]
+    good = False
+    for gbb, op, a, c, t_true, t_false in _cmp_guards(dec):
+        if op == "Ge":
+            bail, cont = t_true, t_false
+        elif op == "Lt":
+            bail, cont = t_false, t_true
+        else:
+            continue
+        c = strip_casts(c)
+        # the bound is exactly entries.len() (the number of entries decoded so far)
+        if not (c[0] == "call" and c[1].endswith("::len") and "entries" in show(dec, c) and len(calls_of(c)) == 1):
+            continue
+        if sbb in dec.reachable_from(bail):
+            continue  # the failing edge must leave without storing
+        # the guard sits in a loop that precedes the store
+        if gbb in dec.reachable_from(cont) and sbb in dec.reachable_from(gbb) and gbb not in dec.reachable_from(sbb):
+            good = True
+    if not good:
+        return None
+    why.append("decode_format2_entry(): `i >= entries.len()` -> Err is tested in a loop before entry.child_indices is stored")
+    return "R-g memoised evaluation over strictly prior indices: " + "; ".join(why) + " => recursion depth <= 2"
+
+
+def calls_of(e):
+    from ..guards import calls_in_expr
+    return calls_in_expr(e)
+
+
+def _passes(b, start, end, via):
+    """every path start->end passes `via` (via dominates end when start is made the entry): remove via and test reachability"""
+    seen = {start}
+    st = [start]
+    while st:
+        x = st.pop()
+        if x == via:
+            continue
+        if x == end:
+            return False
+        for s in b.succ(x):
+            if s not in seen:
+                seen.add(s)
+                st.append(s)
+    return True
+
+
+def _preds_closure(b, bb):
+    return b.preds()[bb]
+
+
+# ---- driver ------------------------------------------------------------------------------------
+def classify(scc, facts):
+    for fn in (try_ra, lambda s: try_rb(s, facts), try_rc, try_rd, lambda s: try_rg(s, facts), try_rf):
+        try:
+            r = fn(scc)
+        except Exception as e:  # a recogniser that crashes recognises nothing
+            r = None
+        if r:
+            return r
+    return None
+
+
+def run_scope(chk, rid, scope, configs=None, floor=None):
+    chk.rule(rid, "T-REC: every cycle of the instance-level call graph (resolved callees, CHA for trait objects, closures "
+                  "attached to their creator) touching this scope matches a bounded-recursion idiom (R-a..R-g)")
+    configs = configs or (["union"] if chk.tier == "quick" else ["union", "allfeat"])
+    total = 0
+    for cfg in configs:
+        facts, g = graph_for(cfg)
+        prefixes = SCOPES[scope]
+        groups = {}
+        for comp in g.sccs():
+            paths = tuple(sorted(set(g.nodes[i]["path"] for i in comp)))
+            if not any(in_scope(p, prefixes) for p in paths):
+                continue
+            groups.setdefault(paths, []).append(comp)
+        chk.stats[f"{rid}:{cfg}:instances"] = len(g.nodes)
+        chk.stats[f"{rid}:{cfg}:edges"] = sum(len(s) for s in g.succ)
+        chk.stats[f"{rid}:{cfg}:cyclic_def_groups_in_scope"] = len(groups)
+        for paths, comps in sorted(groups.items()):
+            scc = Scc(facts, g, comps)
+            why = classify(scc, facts)
+            total += 1
+            head = paths[0] if len(paths) == 1 else f"{paths[0]} (+{len(paths) - 1} more)"
+            b0 = scc.bodies.get(paths[0])
+            key = "cycle|" + "|".join(p for p in paths[:6]) + (f"|+{len(paths) - 6}" if len(paths) > 6 else "")
+            chk.ob(rid, f"{head} [{len(comps)} instance group(s)]", why is not None, why=why, key=key,
+                   file=b0.file if b0 else None, line=b0.lo if b0 else None, fn=paths[0],
+                   detail=f"recursion cycle with no recognised bound: {list(paths)[:8]}; in-cycle edges: "
+                          f"{[(s.split('::')[-1], d.split('::')[-1], k, l) for s, d, k, l in scc.edges[:10]]}")
+            if why:
+                chk.sample({"cycle": head, "bounded_by": why})
+    if floor:
+        chk.floor(rid, "cyclic def-groups classified", total, floor)
+    chk.assume("A-CB: calls dispatched on an uninstantiated type parameter of a public generic API and callbacks made by "
+               "std through its own trait objects get no call-graph edge")
+    chk.assume("drop glue is not followed (recursion through Drop of owned trees is outside the claim)")
